@@ -14,7 +14,8 @@ let ni = n_of_int
 type episode = {
   mutable cfg : Secure.cfg option;
   mutable st : Secure.st option;
-  mem0 : (int, Bytes.t) Hashtbl.t;
+  mem0 : (int, Bytes.t) Hashtbl.t;      (* initial dump; keys -1-i mark the blocks printed in the final dump *)
+  cur : (int, Bytes.t) Hashtbl.t;       (* the model's memory, flattened after every operation *)
   mutable bsz : int;
   mutable rsv : int;
   mutable dead : bool;      (* a mismatch was already reported for this episode *)
@@ -52,12 +53,29 @@ let obs_string (c : Secure.cfg) (s : Secure.st) : string =
     (lst (walk_like_harness c s s.Secure.free)) (lst (walk_like_harness c s s.Secure.lfree))
     (lst (walk_like_harness c s s.Secure.tfree))
 
+(* memory backed by a table of byte arrays (absent block = all zero) *)
+let table_mem (tbl : (int, Bytes.t) Hashtbl.t) : coq_N -> coq_N -> coq_N =
+  fun i o ->
+    match Hashtbl.find_opt tbl (int_of_n i) with
+    | None -> N0
+    | Some b -> let o = int_of_n o in if o < Bytes.length b then ni (Char.code (Bytes.get b o)) else N0
+
+(* the extracted operations wrap the memory function once per write; evaluate it on all blocks
+   below the capacity and continue from a flat table (same function, cheaper to apply) *)
+let flatten (e : episode) (s : Secure.st) : Secure.st =
+  let cap = int_of_n s.Secure.cap in
+  let fresh = Array.init cap (fun i ->
+    let blk = s.Secure.mem (ni i) in
+    Bytes.init e.bsz (fun o -> Char.chr (int_of_n (Secure.byte blk (ni o))))) in
+  Array.iteri (fun i b -> Hashtbl.replace e.cur i b) fresh;
+  { s with Secure.mem = table_mem e.cur }
+
 let () = Modes.register "secure" (fun records mismatches ->
   let eps : (string, episode) Hashtbl.t = Hashtbl.create 64 in
   let get ep =
     match Hashtbl.find_opt eps ep with
     | Some e -> e
-    | None -> let e = { cfg = None; st = None; mem0 = Hashtbl.create 64; bsz = 0; rsv = 0; dead = false } in
+    | None -> let e = { cfg = None; st = None; mem0 = Hashtbl.create 64; cur = Hashtbl.create 64; bsz = 0; rsv = 0; dead = false } in
       Hashtbl.replace eps ep e; e in
   let report fmt = Printf.ksprintf (fun s -> incr mismatches; if !mismatches <= 40 then print_endline ("MISMATCH " ^ s)) fmt in
   let b2n b = if b then ni 1 else ni 0 in
@@ -105,11 +123,8 @@ let () = Modes.register "secure" (fun records mismatches ->
       | "F" :: "st" :: ep :: cap :: used :: f :: l :: t :: _ ->
         incr records;
         let e = get ep in
-        let tbl = e.mem0 in
-        let mem (i : coq_N) (o : coq_N) : coq_N =
-          match Hashtbl.find_opt tbl (int_of_n i) with
-          | None -> N0
-          | Some b -> let o = int_of_n o in if o < Bytes.length b then ni (Char.code (Bytes.get b o)) else N0 in
+        Hashtbl.iter (fun k b -> Hashtbl.replace e.cur k (Bytes.copy b)) e.mem0;
+        let mem = table_mem e.cur in
         let s = { Secure.cap = n cap; free = opt_of_idx1 (int_of_string f); lfree = opt_of_idx1 (int_of_string l);
                   tfree = opt_of_idx1 (int_of_string t); used = n used; mem = mem } in
         e.st <- Some s;
@@ -143,6 +158,7 @@ let () = Modes.register "secure" (fun records mismatches ->
             let impl = String.concat " " res in
             (match Secure.step c s op with
              | Secure.Ok ((s', r), errs) ->
+               let s' = flatten e s' in
                let model = Printf.sprintf "%d %s | %s" (idx1 r)
                    (String.concat " " (string_of_int (L.length errs) :: L.map string_of_n errs)) (obs_string c s') in
                e.st <- Some s';
